@@ -1019,6 +1019,9 @@ func (e *endpoint) connect(addr tcpip.FullAddress, handshake bool, run bool) (er
 		// The endpoint is bound to a port, attempt to register it.
 		err := e.stack.RegisterTransportEndpoint(nicid, netProtos, ProtocolNumber, e.id, e)
 		if err != nil {
+			// Still bound, not connected: the port reservation is
+			// released under the address it was made for.
+			e.id = origID
 			return err
 		}
 	} else {
@@ -1050,6 +1053,7 @@ func (e *endpoint) connect(addr tcpip.FullAddress, handshake bool, run bool) (er
 				return false, err
 			}
 		}); err != nil {
+			e.id = origID
 			return err
 		}
 	}
